@@ -14,13 +14,14 @@ RULE = ("enum definitions with 1-8 value names drawn from pools (SCREAMING, came
         "leading underscore, digits, single letters), reachable from a response field, a list field, a variable and an input "
         "field x strings: all schema names, near-misses (case-folded, underscores stripped / added, the normalised form, "
         "prefix / suffix, surrounding blanks), empty, non-ASCII, 4 KB, plus the non-strings 1, 1.5, null, true, [], {} x "
-        "normalization {none, rust}. Non-trivial = enum with a keyword or a value whose Rust identifier differs from its name; "
+        "normalization {none, rust} x deprecation strategy {unset, deny, warn, allow} with ~30% of the values deprecated in the schema; "
+        "JSON schemas mostly carry unused decoy types (an enum without visible values first in the type list). Non-trivial = enum with a keyword or a value whose Rust identifier differs from its name; "
         "distinct by (value list, normalization)")
 
 VALUE_POOL = ["RED", "GREEN", "DARK_BLUE", "blue", "darkGray", "light_pink", "V1", "A_1", "Mixed_Case", "NOT_FOUND", "a", "B", "Http2", "in_progress",
               "type", "match", "in", "fn", "self_", "async", "where", "loop", "Self_", "_leading", "x", "iOS", "HTTPServer", "snake_case_value",
               "PascalCase", "camelCaseValue", "struct", "enum", "impl", "yield", "dyn", "abstract", "union", "ref", "mod", "use", "super_", "crate_"]
-FLOOR = {"enum-strings": 1000, "schema-names": 120, "other-strings": 600, "non-strings": 200, "keyword-values": 15, "norm-rust": 10}
+FLOOR = {"enum-strings": 1000, "schema-names": 120, "other-strings": 600, "non-strings": 200, "keyword-values": 15, "norm-rust": 10, "enums-with-deprecated-values": 10, "json-with-decoy-types": 5}
 
 
 def near_misses(vals, rng):
@@ -50,7 +51,10 @@ def gen_cases(run, n, prefix="c"):
             vals.append(v)
         ename = rng.choice(["Color", "color_kind", "SCREAM_ENUM", "E1", "camelEnum"])
         s = Schema()
-        s.add(ename, {"kind": "enum", "values": vals})
+        # some values are deprecated in the schema (SDL directive / isDeprecated): a deprecated value is still a value the
+        # server sends and accepts, under every deprecation strategy
+        dep = {v: rng.choice([{"reason": None}, {"reason": "use another value"}, {"reason": "no \"longer\" used"}]) for v in vals if rng.random() < 0.3}
+        s.add(ename, {"kind": "enum", "values": vals, "deprecated_values": dep})
         # a second enum in the same operation that shares some value names with the first
         vals2 = list(rng.sample(vals, rng.randint(1, len(vals)))) + [v for v in rng.sample(VALUE_POOL, 2) if names.camel(v) not in seen and v not in seen]
         seen2, v2 = set(), []
@@ -69,7 +73,18 @@ def gen_cases(run, n, prefix="c"):
                                                                    {"name": "w", "type": T("Second"), "default": None}],
                                "sel": [["field", None, "e", None, None], ["field", None, "es", None, None], ["field", None, "second", None, None]]}], "fragments": []}
         opts = {"normalization": "rust"} if rust else {}
+        strat = [None, "deny", "warn", "allow"][(i // 2) % 4]
+        if strat:
+            opts["deprecation"] = strat
         c = C.make_case("%s%d" % (prefix, i), s, doc, rng, options=opts, fmt=rng.choice(["sdl", "json"]))
+        if c["schema_format"] != "sdl" and i % 3 != 2:
+            # a server's type list also holds types the operation never touches, among them an enum without (visible) values
+            from ..model import render_json
+            c["schema_text"] = render_json(s, wrapped=c["schema_format"] == "json-data", builtins=rng.choice(["none", "scalars", "all"]), rng=rng, decoys=True)
+            run.count("json-with-decoy-types")
+        if dep:
+            run.count("enums-with-deprecated-values")
+            run.count("strategy:%s" % strat)
         strings = list(vals) + near_misses(vals, rng)[: run.size(40, 120)]
         vecs = []
         for si, st in enumerate(v2 + ["zz_not_a_value", ""]):
